@@ -542,6 +542,17 @@ func (c *Compiler) getEnabledFeaturesForPrefix(name string) []string {
 	return features
 }
 
+// Identities are registered under the name of the module that owns them; an
+// identity written in a submodule belongs to the module the submodule belongs to.
+func owningModuleName(m parse.Node) string {
+	if m.Type() == parse.NodeSubmodule {
+		if b := m.ChildByType(parse.NodeBelongsTo); b != nil {
+			return b.Name()
+		}
+	}
+	return m.Name()
+}
+
 func (c *Compiler) identityCheckCyclicRef(name string, ids map[string]parse.Node, assigned map[string]bool) {
 	if _, ok := assigned[name]; ok {
 		c.error(ids[name], fmt.Errorf("Identity cyclic reference %s\n", name))
@@ -549,7 +560,7 @@ func (c *Compiler) identityCheckCyclicRef(name string, ids map[string]parse.Node
 	assigned[name] = true
 
 	for _, nd := range ids[name].ChildrenByType(parse.NodeIdentity) {
-		nm := nd.Root().Name() + ":" + nd.Name()
+		nm := owningModuleName(nd.Root()) + ":" + nd.Name()
 		c.identityCheckCyclicRef(nm, ids, assigned)
 	}
 
@@ -576,7 +587,7 @@ func (c *Compiler) checkIdentities() error {
 	for name, ident := range ids {
 		for _, base := range ident.ChildrenByType(parse.NodeBase) {
 			mod, tIdent := c.getModuleAndReference(ident.Root(), base, parse.NodeIdentity)
-			tnm := mod.Name() + ":" + tIdent.Name()
+			tnm := owningModuleName(mod) + ":" + tIdent.Name()
 			if _, ok := ids[tnm]; ok {
 				tIdent.AddChildren(ident)
 				c.assertReferenceStatus(ident, tIdent, schema.Current)
@@ -774,6 +785,7 @@ func (c *Compiler) ProcessModuleIncludes(m parse.Node, submodules map[string]par
 		m.AddChildren(smod.ChildrenByType(parse.NodeImport)...)
 		m.AddChildren(smod.ChildrenByType(parse.NodeDataDef)...)
 		m.AddChildren(smod.ChildrenByType(parse.NodeAugment)...)
+		m.AddChildren(smod.ChildrenByType(parse.NodeIdentity)...)
 	}
 }
 
@@ -1810,9 +1822,12 @@ func (comp *Compiler) makeEnumeration(
 
 func (c *Compiler) identityValues(cfgNode, node parse.Node, ident parse.Node, rt []*schema.Identity) []*schema.Identity {
 	strp := cfgNode.GetNodeModulename(cfgNode.Root()) + ":"
+	if ur := cfgNode.UsesRoot(); ur != nil {
+		strp = owningModuleName(ur) + ":"
+	}
 
 	for _, id := range ident.ChildrenByType(parse.NodeIdentity) {
-		nm := id.Root().Name() + ":" + id.Name()
+		nm := owningModuleName(id.Root()) + ":" + id.Name()
 		rname := strings.TrimPrefix(nm, strp)
 		i := schema.NewIdentity(id.GetNodeModulename(id.Root()),
 			id.GetNodeNamespace(id.Root(), c.modules),
@@ -1842,7 +1857,10 @@ func (c *Compiler) getIdentities(cfgNode parse.Node, i schema.Identityref, node 
 	mod := node.Root()
 	tm, ident := c.getModuleAndReference(mod, baseStmnt, parse.NodeIdentity)
 
-	idid, _ := c.identities[tm.Name()+":"+ident.Name()]
+	idid, ok := c.identities[owningModuleName(tm)+":"+ident.Name()]
+	if !ok {
+		c.error(node, fmt.Errorf("identity not valid: %s", baseStmnt.Argument().String()))
+	}
 
 	idents := make([]*schema.Identity, 0, 0)
 
